@@ -14,7 +14,9 @@ well-formed (type and payload agree, strings and names normalised, no optional
 annotation in the value's type), wholly known, unmarked, capsule-free, conforming to
 `t`, and `NumOK` (every number is finite and its `Text('f',-1)` re-parses at 512 bits to
 a `rawNumberEqual` number — an explicit hypothesis, probed by the harness on every run
-for int64/uint64, integers that fit their precision and parsed decimals).
+for int64/uint64, integers below 2^500 held at 512 bits and parsed decimals of up to 90
+digits; it FAILS for a float64 such as 1e23 and for 2^513 at 512 bits, see the two
+`numOK_…_counterexample`s).
 `rtCheck env v t` is the conclusion: Marshal succeeds, Unmarshal of its output with
 the same constraint succeeds, the types are `Equals`, the payloads are `sameP` (structural
 equality, numbers by `rawNumberEqual`: what `RawEquals`/`Equals` compute on known
@@ -25,6 +27,7 @@ decoder rebuilds the set through the hash oracle; iteration order ≠ storage or
 -/
 import CtyModel.Lemmas.JsonValRT
 import CtyModel.Lemmas.JsonValStrip
+import CtyModel.Lemmas.JsonValNoOpt
 import CtyModel.Lemmas.JsonValReject
 import CtyModel.Lemmas.JsonValDoc
 import CtyModel.Lemmas.JsonValMirror
@@ -141,6 +144,18 @@ theorem dynamic_descriptor_annotation_dropped :
         [.arr [.str "object", .obj ["a"] [.str "string"], .arr [.str "a"]], .null]) .dyn =
       .ok ⟨.object ["a"] [.string] [false], .null⟩ := by rfl
 
+/-- The statement of the repair itself, for EVERY document and EVERY requested type (sets,
+capsules, dynamic wrappers, ill-formed documents included): whenever `Unmarshal` returns a
+value, the type of that value carries no optional-attribute annotation anywhere — whether
+the annotation was in the requested type or in a type descriptor inside the document. -/
+theorem unmarshal_type_has_no_annotations (env : JEnv) (j : Json) (t : Ty) (v : Value)
+    (h : unmarshalTop env j t = .ok v) : hasOpt v.ty = false :=
+  unmarshalTop_noOpt env j t v h
+
+/-- non-vacuous: the annotated request and the annotated descriptor both decode -/
+example : (∃ v, unmarshalTop env0 .null (.object ["a"] [.string] [true]) = .ok v) ∧
+    hasOpt (.object ["a"] [.string] [true]) = true := ⟨⟨_, rfl⟩, by decide⟩
+
 /-- COUNTEREXAMPLE (null under a partially dynamic constraint): `NullVal(List(String))`
 against `List(DynamicPseudoType)` is written as `null` and read back as
 `NullVal(List(DynamicPseudoType))` — the type is lost. -/
@@ -172,6 +187,16 @@ float64s, and read back at 512 bits as exactly 10^23 — a different integer. -/
 theorem numOK_needed_counterexample :
     numOK (.fin false 2980232238769531 25 53) = false ∧
     rtCheck env0 ⟨.number, .n (.fin false 2980232238769531 25 53)⟩ .number = false := by
+  decide +kernel
+
+/-- `NumOK` also fails for numbers held at cty's OWN 512 bits: 2^513.  math/big's shortest
+text takes the rounding interval to be symmetric, but below a power of two the neighbour is
+only half as far: it prints …168190 = 2^513 − 2, the float just below, and that is what the
+decoder returns (`Num.textF` transliterates the search, the correspondence diffs it on every
+run).  Recorded as `roundtrip [equals:num-text-not-exact-at-own-precision]`. -/
+theorem numOK_power_of_two_counterexample :
+    numOK (.fin false 1 513 512) = false ∧
+    rtCheck env0 ⟨.number, .n (.fin false 1 513 512)⟩ .number = false := by
   decide +kernel
 
 /-! ## Mirror: a value against its own type -/
